@@ -15,6 +15,9 @@ VERIF = os.path.dirname(os.path.dirname(os.path.abspath(__file__)))
 COQ = os.path.join(VERIF, "coq")
 DRIVER = os.path.join(VERIF, "bin", "model_driver")
 REPO = "/repo"
+# (development only, like VERIF_REPO: sweeps that run many checks side by side write their evidence and replays elsewhere;
+# registered commands never set it)
+OUT = os.environ.get("VERIF_OUT", VERIF)
 
 FORBIDDEN = re.compile(
     r"\b(Admitted|admit|Axiom|Axioms|Parameter|Parameters|Conjecture|Conjectures|Admit Obligations)\b"
@@ -225,13 +228,13 @@ class Ctx:
             if k["status"] == "open" and k.get("_match") and k["_match"](replay):
                 self.report_known(k)
                 return
-        os.makedirs(os.path.join(VERIF, "replays"), exist_ok=True)
+        os.makedirs(os.path.join(OUT, "replays"), exist_ok=True)
         body = dict(replay)
         body.update({"property": self.prop, "what": what, "seed": self.seed, "tier": self.tier,
                      "confirmed_on_implementation": confirmed})
         blob = json.dumps(body, sort_keys=True, default=repr)
         name = f"{self.prop}-{hashlib.blake2b(blob.encode(), digest_size=6).hexdigest()}.json"
-        path = os.path.join(VERIF, "replays", name)
+        path = os.path.join(OUT, "replays", name)
         body["replay_cmd"] = f"cd /verif && /venv/bin/python harness/check.py {self.prop} --replay {path}"
         with open(path, "w") as f:
             json.dump(body, f, indent=1, sort_keys=True, default=repr)
@@ -310,8 +313,8 @@ def write_evidence(ctx: Ctx, proof):
         "wall_s": round(time.time() - ctx.t0, 2),
         "violations": len(ctx.violations),
     }
-    os.makedirs(os.path.join(VERIF, "evidence"), exist_ok=True)
-    path = os.path.join(VERIF, "evidence", f"{ctx.prop}.json")
+    os.makedirs(os.path.join(OUT, "evidence"), exist_ok=True)
+    path = os.path.join(OUT, "evidence", f"{ctx.prop}.json")
     with open(path, "w") as f:
         json.dump(ev, f, indent=1, default=repr)
     return path
